@@ -725,8 +725,31 @@ func trackRun(e *Env) {
 			}
 		})
 	}
-	c = NewClient(g.Knobs(ClientOpts{Nick: "me", Ident: "sim", Name: "Sim User", Flood: flood, Track: true}))
+	// the server may welcome the client under another nick than it asked for:
+	// the welcome line is then a line that changes the tracker too
+	reqNick := "me"
+	if e.Prop == "C05" && g.Pct(35) {
+		reqNick = "asked"
+	}
+	c = NewClient(g.Knobs(ClientOpts{Nick: reqNick, Ident: "sim", Name: "Sim User", Flood: flood, Track: true}))
 	st := c.StateTracker()
+	if e.Prop == "C05" {
+		welcomed := func(kind string) client.HandlerFunc {
+			return func(c *client.Conn, l *client.Line) {
+				if len(l.Args) == 0 {
+					return
+				}
+				me := st.Me()
+				old := st.GetNick(reqNick)
+				e.Check()
+				if me == nil || me.Nick != l.Args[0] || (reqNick != l.Args[0] && old != nil) {
+					e.Violation(kind+"-handler-view", "a %s handler for the welcome line %q saw the tracker before the line was applied: Me()=%v, %q still tracked=%v", kind, l.Raw, me, reqNick, old != nil)
+				}
+			}
+		}
+		c.Handle("001", welcomed("fg"))
+		c.HandleBG("001", welcomed("bg"))
+	}
 	discs := 0
 	c.HandleFunc(client.DISCONNECTED, func(*client.Conn, *client.Line) { discs++ })
 	reconnectsLeft := 0
